@@ -35,5 +35,7 @@ for prop in sys.argv[2:]:
                 "confirmed": {"applies_to": head + " (current /repo HEAD)", "existing_tests": "88 passed with the change",
                               "demo": "demo.rs fails with the change, passes without (tools/seedverify.sh): " + " | ".join(out[:3])}}
         json.dump(meta, open(dst + "/meta.json", "w"), indent=1)
+        if os.environ.get("NO_RUN"):      # checks are run separately (tools/mutate.py --seeded, private worktrees)
+            continue
         r = subprocess.run([ROOT + "/tools/seedrun.py", dst], text=True, capture_output=True)
         print(r.stdout.strip()[-400:], flush=True)
